@@ -13,7 +13,7 @@ class Axi4Master(Mon):
     """protocol-legal AXI4 master restricted to INCR bursts of full bus width, len <= maxlen, aligned, one outstanding burst per direction,
     sequential between directions; + shadow byte over all beats"""
 
-    def __init__(self, bus, nwords, maxlen=3, tag="m"):
+    def __init__(self, bus, nwords, maxlen=3, tag="m", align=1):
         nb = bus.data_width // 8
         sh = log2_int(nb)
         self.free = []
@@ -38,6 +38,8 @@ class Axi4Master(Mon):
         for ax in (bus.aw, bus.ar):
             w = ax.addr >> sh
             asm = asm & (~ax.valid | ((ax.burst == BURST_INCR) & (ax.size == sh) & (ax.len <= maxlen) & ((ax.addr[:sh] == 0) if sh else 1) & (w + ax.len < nwords)))
+            if align > 1:     # start aligned to `align` words and a whole number of groups (up-converter's stated assumption)
+                asm = asm & (~ax.valid | (((w & (align - 1)) == 0) & (((ax.len + 1) & (align - 1)) == 0)))
         wout = (n["aw"] != n["b"]) | (n["wl"] != n["b"])
         rout = n["ar"] != n["rl"]
         asm = asm & (~bus.ar.valid | ~(wout | bus.aw.valid | bus.w.valid)) & (~(bus.aw.valid | bus.w.valid) | ~(rout | bus.ar.valid))
